@@ -204,6 +204,21 @@ class Interp:
                         self.kill(s, nm)
             return [(None, s)]
         # simple statements
+        # `x = A if c else B`: the two cases are two paths (c refined on each), exactly as the if-statement it abbreviates
+        if isinstance(a, (ast.Assign, ast.AnnAssign)) and isinstance(a.value, ast.IfExp) and (len(a.targets) == 1 if isinstance(a, ast.Assign) else True):
+            tgt = a.targets[0] if isinstance(a, ast.Assign) else a.target
+            if isinstance(tgt, ast.Name):
+                outs2: list[tuple[str | None, dict]] = []
+                t = self.truth(a.value.test, st)
+                for val, branch in ((True, a.value.body), (False, a.value.orelse)):
+                    if t == ("F" if val else "T"):
+                        continue
+                    s_ = dict(st)
+                    self.refine(a.value.test, val, s_)
+                    self.assign(tgt, branch, s_, node)
+                    outs2.append((None, s_))
+                if outs2:
+                    return outs2
         s = dict(st)
         if isinstance(a, ast.Assign):
             for t in a.targets:
@@ -232,8 +247,10 @@ class Interp:
         return [(None, s)]
 
     def kill(self, st: dict, var: str) -> None:
-        for pre in ("nn:", "tr:", "lk:", "vs:", "st:", "ex:", "d:", "mn:"):
+        for pre in ("nn:", "tr:", "lk:", "vs:", "st:", "ex:", "d:", "mn:", "vsof:"):
             st.pop(pre + var, None)
+        for k_ in [k_ for k_, v_ in st.items() if k_.startswith("vsof:") and v_ == var]:
+            st.pop(k_)
         if "ev:test" in st:
             import re as _re
 
@@ -401,7 +418,13 @@ class Interp:
                 st[f"nn:{var}"] = "NN"
                 st[f"vs:{var}"] = self.nn_of(arg, st) if arg is not None else "N"
                 return
-            if last == "validate" and isinstance(v.func, ast.Attribute) and isinstance(v.func.value, ast.Name) and f"vs:{v.func.value.id}" in st:
+            chained_vs = None
+            if last == "validate" and isinstance(v.func, ast.Attribute) and isinstance(v.func.value, ast.Call) and ast.unparse(v.func.value.func).split(".")[-1] == "Validator":
+                # Validator(schema=X).validate(..): the validator is not bound to a name
+                vc = v.func.value
+                varg = vc.args[0] if vc.args else next((k.value for k in vc.keywords if k.arg == "schema"), None)
+                chained_vs = self.nn_of(varg, st) if varg is not None else "N"
+            if last == "validate" and isinstance(v.func, ast.Attribute) and ((isinstance(v.func.value, ast.Name) and f"vs:{v.func.value.id}" in st) or chained_vs is not None):
                 st["errvar"] = var
                 # with which strictness was this pass made? (the first pass on a path is the one that judges the document)
                 sk = next((ast.unparse(k.value) for k in v.keywords if k.arg == "strict"), ast.unparse(v.args[1]) if len(v.args) > 1 else "False")
@@ -415,7 +438,13 @@ class Interp:
                 if len(v.args) >= 3:
                     ss = v.args[2]
                 ss_none = ss is None or self.nn_of(ss, st) == "N"
-                if st[f"vs:{v.func.value.id}"] == "N" and ss_none:
+                cur_vs = chained_vs if chained_vs is not None else st[f"vs:{v.func.value.id}"]
+                # the errors of a schema-less pass are empty: when the schema is a name whose None-ness is not known yet, remember
+                # the dependence so that a later test of that name decides it (the name is not rebound in between: kill())
+                st.pop(f"vsof:{var}", None)
+                if cur_vs == "?" and ss_none and chained_vs is not None and isinstance(varg, ast.Name):
+                    st[f"vsof:{var}"] = varg.id
+                if cur_vs == "N" and ss_none:
                     st[f"tr:{var}"] = "F"  # schema-less validation yields no errors (rule R10.7 checks the validator)
                 return
             src = self._map_helper_source(v)
@@ -691,6 +720,8 @@ class Interp:
                 st[f"nn:{l.id}"] = "N" if isnone else "NN"
                 if isnone:
                     st[f"tr:{l.id}"] = "F"
+                    for k_ in [k_ for k_, v_ in st.items() if k_.startswith("vsof:") and v_ == l.id]:
+                        st[f"tr:{k_[5:]}"] = "F"  # that pass was made without a schema: it produced no errors
                 return
             if isinstance(op, (ast.In, ast.NotIn)) and isinstance(r, ast.Name):
                 r = self._const_collection(r.id) or r
